@@ -7,6 +7,7 @@ import (
 
 	"cosmossdk.io/collections"
 	"cosmossdk.io/log"
+	storetypes "cosmossdk.io/store/types"
 	sdk "github.com/cosmos/cosmos-sdk/types"
 
 	connectaggregator "github.com/skip-mev/connect/v2/abci/strategies/aggregator"
@@ -135,7 +136,13 @@ func (k L2OracleHandler) UpdateOracle(ctx context.Context, height uint64, extCom
 	// on what this process executed before; use an aggregator with a cold cache for every update.
 	k.voteAggregator = k.newVoteAggregator()
 
-	prices, err := k.voteAggregator.AggregateOracleVotes(sdkCtx, votes)
+	// the aggregator reads the gas-metered host validator store while ranging over Go maps: the total
+	// it consumes does not depend on the iteration order, but the read at which a gas limit is crossed
+	// (and with it the gas used and the location an out-of-gas transaction reports) does. Meter the
+	// aggregation privately and charge its total in one step.
+	aggCtx := sdkCtx.WithGasMeter(storetypes.NewInfiniteGasMeter())
+	prices, err := k.voteAggregator.AggregateOracleVotes(aggCtx, votes)
+	sdkCtx.GasMeter().ConsumeGas(aggCtx.GasMeter().GasConsumed(), "aggregate oracle votes")
 	if err != nil {
 		return err
 	}
